@@ -18,6 +18,75 @@ var literals = map[string]func() (interface{}, []string){
 	"both-slices": func() (interface{}, []string) {
 		return &zoo.BothSl{A: []zoo.Inner{{A: 1, S: "a"}}, B: []*zoo.Inner{nil, {A: 2, S: "b"}, nil}}, []string{"tag=slice-ptr-collision", "type=BothSl"}
 	},
+	"list256": func() (interface{}, []string) {
+		v := make([]int32, 259)
+		for i := range v {
+			v[i] = int32(i)
+		}
+		return &zoo.SlInt32{V: v}, []string{"list.len256-263", "type=SlInt32"}
+	},
+	"map-str-int": func() (interface{}, []string) {
+		return &zoo.MpStrInt{M: map[string]int{"a": 1, "b": 70000}}, []string{"type=MpStrInt"}
+	},
+	"map-str-struct": func() (interface{}, []string) {
+		return &zoo.MpStrStruct{M: map[string]zoo.Inner{"a": {A: 1, S: "x"}}}, []string{"type=MpStrStruct"}
+	},
+	"map-of-map": func() (interface{}, []string) {
+		return &zoo.MpStrMp{M: map[string]map[string]string{"a": {"k": "v"}, "e": {}}}, []string{"type=MpStrMp"}
+	},
+	"slice-of-map": func() (interface{}, []string) {
+		return &zoo.SlMap{V: []map[string]int32{{"k": 1}, {}, {"j": 2}}}, []string{"type=SlMap"}
+	},
+	"empty-string-elem": func() (interface{}, []string) {
+		return &zoo.SlStr{V: []string{"a", "", "b"}}, []string{"str.empty@elem", "type=SlStr"}
+	},
+	"empty-string-key": func() (interface{}, []string) {
+		return &zoo.MpStrStr{M: map[string]string{"": "v", "k": "", "z": "w"}}, []string{"str.empty@mapkey", "type=MpStrStr"}
+	},
+	"nil-ptr-elem": func() (interface{}, []string) {
+		return &zoo.SlPtr{V: []*zoo.Inner{{A: 1, S: "a"}, nil, {A: 2, S: "b"}}}, []string{"ptr.nil@elem", "type=SlPtr"}
+	},
+	"zero-time-elem": func() (interface{}, []string) {
+		return &zoo.SlTime{V: []time.Time{time.Unix(1500000000, 5e6), {}, time.Unix(1600000000, 7e6)}}, []string{"time.zero@elem", "type=SlTime"}
+	},
+	"slice-of-slice": func() (interface{}, []string) {
+		return &zoo.SlSl{V: [][]int32{{1, 2}, {}, {3}}}, []string{"type=SlSl"}
+	},
+	"map-of-slice": func() (interface{}, []string) {
+		return &zoo.MpStrSl{M: map[string][]int32{"a": {1, 2}}}, []string{"type=MpStrSl"}
+	},
+	"class2-in-list": func() (interface{}, []string) {
+		return &zoo.Bag{P01: &zoo.K01{A: 1}, L03: []zoo.K03{{A: 3}, {A: 4}}, L17: []zoo.K17{{A: 17}}, Tail: 9}, []string{"type=Bag", "class-instance@elem"}
+	},
+	"nil-map-before-shared-ptr": func() (interface{}, []string) {
+		a := &zoo.GF{Id: 1}
+		b := &zoo.GF{Id: 2, A: a, B: a} // b.M (nil map) is written between b and the shared a
+		return &zoo.GHolder{Root: b, Early: b, Late: a}, []string{"type=GHolder", "shared-ptr"}
+	},
+	"time-before-shared-ptr": func() (interface{}, []string) {
+		a := &zoo.GF{Id: 1, T: time.Unix(1500000000, 5e6)}
+		b := &zoo.GF{Id: 2, T: time.Unix(1500000001, 5e6), A: a, B: a}
+		return &zoo.GHolder{Root: b, Early: b, Late: a}, []string{"type=GHolder", "shared-ptr"}
+	},
+	"shr-two-lengths": func() (interface{}, []string) {
+		arr := []int32{1, 2, 3, 4, 5}
+		return &zoo.Shr{S1: arr[:2], S2: arr[:3]}, []string{"type=Shr", "two-lengths-one-array"}
+	},
+	"shr-empty-slices-of-two-types": func() (interface{}, []string) {
+		return &zoo.TwoSlices{}, []string{"type=TwoSlices"}
+	},
+	"shr-same-slice-twice": func() (interface{}, []string) {
+		arr := []int32{1, 2, 3}
+		in := &zoo.Inner{A: 5, S: "x"}
+		ps := []*zoo.Inner{in, in}
+		return &zoo.Shr{S1: arr, S2: arr, P1: ps, P2: ps, PS: &ps}, []string{"type=Shr", "same-slice-twice"}
+	},
+	"integral-double-in-list": func() (interface{}, []string) {
+		return &zoo.SlF64{V: []float64{0.5, 2, 100000, -1, 0.25}}, []string{"type=SlF64", "double.integral"}
+	},
+	"date-2040": func() (interface{}, []string) {
+		return &zoo.Scalars{S: "x", T: time.Date(2040, 1, 1, 0, 0, 0, 5e6, time.UTC)}, []string{"type=Scalars"}
+	},
 	"top-unnamed-map": func() (interface{}, []string) {
 		return map[string]int32{"a": 1, "b": 2}, []string{"tag=top-unnamed-map", "type=top:map[string]int32"}
 	},
